@@ -885,6 +885,46 @@ def cache_invariant(run, twin=None):
     core.explore(lambda: None, lambda p, out: ground(p))
 
 
+@harness(['C07'], 'supp.project.Project.get_path')
+def get_path_contract(run):
+    """get_path(): the source roots, then sys.path, each in its own order - as a search path that is: the sequence of FIRST occurrences of the
+    directories is that of sources + sys.path (dropping a later duplicate changes no lookup; moving a directory behind others does)"""
+    f = loader.load('supp.project', 'Project.get_path', stubs={'sys': type('SysStub', (), {'path': None})})
+    import supp.project as Pj
+
+    def first_occurrences(xs):
+        out = []
+        for x in xs:
+            if x not in out:
+                out.append(x)
+        return out
+
+    def go(path):
+        for sources, syspath in ((['/r1', '/r2'], ['/lib', '/site']), (['/r1', '/r2', '/r1'], ['/lib']), (['/r1'], ['/lib', '/r1', '/site']),
+                                 (['/r2', '/r1'], ['/r1', '/lib', '/lib']), (['/r1'], [])):
+            run.case = '%r + %r' % (sources, syspath)
+            f2 = loader.load('supp.project', 'Project.get_path', stubs={'sys': type('SysStub', (), {'path': list(syspath)})})
+            s = real_project(Pj, sources=list(sources))
+            try:
+                got = list(f2(s))
+            except Exception as e:
+                got = ['<raised %s>' % type(e).__name__]
+            prove('search-order-is-roots-then-sys.path', first_occurrences(got) == first_occurrences(sources + syspath),
+                  clause='first occurrences of %r == first occurrences of sources + sys.path %r' % (got, sources + syspath), path=path)
+        run.case = None
+    core.explore(lambda: None, lambda p, out: go(p))
+
+
+def spec_joined(module, mname):
+    """the specifier of the submodule `mname` of `from <module> import <mname>`, as importlib.util.resolve_name reads it: the level (leading
+    dots) is kept, one dot separates a non-empty package part from the name"""
+    if not mname:
+        return None
+    level = len(module) - len(module.lstrip('.'))
+    part = module[level:]
+    return '.' * level + (part + '.' + mname if part else mname)
+
+
 @harness(['C07', 'C04'], 'supp.name.ImportedName.resolve')
 def imported_name_resolve(run):
     """`from m import x`: x is first looked up as the submodule m.x (relative specifiers joined without an extra dot), and only if that is not
@@ -895,7 +935,8 @@ def imported_name_resolve(run):
     def go(path):
         for module, mname, sub_exists, mod_exists in [('pkg', 'x', True, True), ('pkg', 'x', False, True), ('pkg', 'x', False, False),
                                                       ('.', 'x', True, True), ('..pkg', 'x', False, True), ('pkg', None, False, True),
-                                                      ('pkg', None, False, False)]:
+                                                      ('pkg', None, False, False), ('..', 'x', True, True), ('..', 'x', False, True), ('...', 'x', True, True),
+                                                      ('.pkg', 'x', True, True), ('...pkg.sub', 'x', True, True), ('....', 'x', False, False)]:
             run.case = 'from %s import %s [submodule %s, module %s]' % (module, mname, sub_exists, mod_exists)
             calls = []
             sub, attrval = object(), object()
@@ -909,7 +950,7 @@ def imported_name_resolve(run):
             class Proj(object):
                 def get_nmodule(self, name, filename):
                     calls.append(('get_nmodule', name))
-                    joined = ((module + '.' + mname) if module.strip('.') else (module + mname)) if mname else None
+                    joined = spec_joined(module, mname)
                     if mname and name == joined:
                         if sub_exists:
                             return sub
@@ -953,7 +994,8 @@ def imported_name_resolve(run):
                   clause='resolves to the submodule if there is one, else to the attribute of the module, else None [%r]' % (exc or r1,), path=path)
             first = calls[0] if calls else None
             if mname:
-                prove('submodule-tried-first', first == ('get_nmodule', (module + '.' + mname) if module.strip('.') else (module + mname)), path=path)
+                prove('submodule-tried-first', first == ('get_nmodule', spec_joined(module, mname)),
+                      clause='the submodule is asked for by the specifier of the same level: %r [%r]' % (spec_joined(module, mname), first), path=path)
             prove('memoised', r2 is r1 and n._ref is r1, path=path)
         run.case = None
     core.explore(lambda: None, lambda p, out: go(p))
@@ -1005,7 +1047,7 @@ def list_packages_bounded(run):
 
 
 @harness(['C07'], 'supp.project.Project.get_module / norm_package[small trees]',
-         bounded='all trees with 3 source roots, each holding for the name `m` one of {nothing, m.py, package m/, extension m.<so>}; '
+         bounded='all trees with 3 source roots, each holding for the name `m` one of {nothing, m.py, package m/, extension m.<so>}; 4 search paths that list a directory twice; '
                  'and relative specifiers of level 1..4 from files at depth 0..3 of a package chain (every marked/unmarked pattern), asked '
                  'in every order on one Project')
 def resolution_small_trees(run):
@@ -1068,6 +1110,32 @@ def resolution_small_trees(run):
                 else:
                     ok = got == want
                 prove('roots-%s' % '-'.join(combo), ok, clause='file analysed == file importlib loads [%r vs %r]' % (got, want), path=path)
+            # a directory listed twice (in the source roots, or in the roots and on sys.path) counts where it is listed FIRST
+            import sys as _sysd
+            base = os.path.join(top, 'twice')
+            ra, rb, lib = (os.path.join(base, x) for x in ('ra', 'rb', 'lib'))
+            for d_ in (ra, rb, lib):
+                os.makedirs(d_)
+            for d_, text in ((ra, 'A'), (rb, 'B'), (lib, 'L')):
+                with open(os.path.join(d_, 'dupmod_zz.py'), 'w') as f_:
+                    f_.write('origin = %r\n' % text)
+            with open(os.path.join(rb, 'only_b_zz.py'), 'w') as f_:
+                f_.write('')
+            for label, sources, extra in (('root-listed-twice', [ra, rb, ra], []), ('later-root-listed-twice', [rb, ra, rb], []),
+                                          ('root-also-on-sys.path', [ra], [lib, ra]), ('sys.path-entry-listed-twice', [], [lib, rb, lib])):
+                saved = list(_sysd.path)
+                _sysd.path[:0] = extra
+                try:
+                    for nm in ('dupmod_zz', 'only_b_zz'):
+                        spec = importlib.machinery.PathFinder.find_spec(nm, sources + _sysd.path)
+                        want = spec.origin if spec else None
+                        try:
+                            got = getattr(Project(list(sources) or ['/nonexistent']).get_module(nm), 'filename', None)
+                        except ImportError:
+                            got = None
+                        prove('%s:%s' % (label, nm), got == want, clause='file analysed == file importlib loads from roots + sys.path [%r vs %r]' % (got, want), path=path)
+                finally:
+                    _sysd.path[:] = saved
             # names with an empty component are no module names
             base = os.path.join(top, 'emptycomp')
             os.makedirs(os.path.join(base, 'p'))
